@@ -2,7 +2,9 @@
 """Regenerate MANIFEST.json from checks.json + not_claimed.json (so the manifest is always valid)."""
 import json, os
 R = os.path.dirname(os.path.abspath(__file__))
-reg = {f[:-5]: json.load(open(os.path.join(R, "checks.d", f))) for f in sorted(os.listdir(os.path.join(R, "checks.d"))) if f.endswith(".json")}
+import importlib.machinery, importlib.util
+_l = importlib.machinery.SourceFileLoader("vf", os.path.join(R, "vf")); _sp = importlib.util.spec_from_loader("vf", _l); _vf = importlib.util.module_from_spec(_sp); _l.exec_module(_vf)
+reg = _vf.registry()
 nc = json.load(open(os.path.join(R, "not_claimed.json")))
 props = [json.loads(l)["id"] for l in open(os.path.join(R, "properties.jsonl"))]
 hooks = json.load(open(os.path.join(R, "hooks.json")))
